@@ -577,7 +577,8 @@ def c16_static(repo):
     b, wb = heom_taylor(repo)
     import translate_c16
     c, wc = translate_c16.rhs(repo)
-    return a + c + "\nFrom QV Require Import Base.Taylor Base.TaylorG Proofs.TaylorGen.\n" + b, wa + wc + wb
+    d, wd = translate_c16.sysops(repo)
+    return a + c + "\nFrom QV Require Import Base.Taylor Base.TaylorG Proofs.TaylorGen.\n" + b + d, wa + wc + wb + wd
 
 
 T_SETRATE = """
